@@ -346,6 +346,10 @@ class SimThread:
     def is_alive(self):
         return self.started and not self.done
 
+    @property
+    def ident(self):
+        return id(self) if self.started else None
+
     def join(self, timeout=None):
         sim = self.sim
         if self.done:
@@ -575,7 +579,23 @@ class FakeThreadingModule:
 
     @staticmethod
     def current_thread():
-        return _real_threading.current_thread()
+        # the simulated thread that is running (so that `current_thread() is self._job_thread` means what it means in a real process);
+        # code running in scheduler context is the application / receiving thread
+        sim = CURRENT
+        if sim is not None and sim.current is not None:
+            return sim.current
+        return _real_threading.main_thread()
+
+    @staticmethod
+    def main_thread():
+        return _real_threading.main_thread()
+
+    @staticmethod
+    def get_ident():
+        sim = CURRENT
+        if sim is not None and sim.current is not None:
+            return id(sim.current)
+        return _real_threading.main_thread().ident
 
 
 class FakeSecrets:
